@@ -465,7 +465,14 @@ func (x *Exec) callFunction(st *State, f *ssa.Function, bindings []Val, args []V
 	var fs *FuncSpec
 	if inPkg {
 		fs = x.prog.spec.Funcs[name]
-		if x.curCall != nil {
+		if x.spec != nil && x.spec.Inline[name] && f.Blocks != nil {
+			// `inline NAME`: the callee's body is verified in place, in this caller's context (the callee's own
+			// contract, if any, is verified separately); used where the caller knows something the callee's
+			// contract cannot say (the dynamic type of an interface argument)
+			fs = nil
+			x.usedSpecs["inline "+name] = true
+		}
+		if x.curCall != nil && fs != nil {
 			if v := x.variantKey(x.curCall); v != "" {
 				if vs := x.prog.spec.Funcs[name+"["+v+"]"]; vs != nil {
 					fs = vs
